@@ -2,6 +2,7 @@ package main
 
 import (
 	"fmt"
+	"sort"
 	"strings"
 	"sync"
 	"time"
@@ -46,7 +47,9 @@ type c12Handle struct {
 	mu     sync.Mutex
 	done   bool
 	status int
-	count  int // number of completions observed (must end up 1)
+	count  int   // number of completions observed (must end up 1)
+	data   []int // what Collect/Wait delivered (list: mailbox ids, search: numbers, expunge: numbers)
+	sent   []int // oracle: data the server sent in answer to this command
 }
 
 func statusOf(err error) int {
@@ -88,6 +91,7 @@ func (s *c12Session) submit(kind string, name int) *c12Handle {
 	s.handles = append(s.handles, hd)
 	mbox := []string{"", "boxa", "boxb"}[name]
 	var wait func() error
+	var got []int
 	switch kind {
 	case "noop":
 		c := s.client.Noop()
@@ -106,16 +110,42 @@ func (s *c12Session) submit(kind string, name int) *c12Handle {
 		wait = func() error { _, err := c.Wait(); return err }
 	case "list":
 		c := s.client.List("", "*", nil)
-		wait = func() error { _, err := c.Collect(); return err }
+		wait = func() error {
+			l, err := c.Collect()
+			for _, d := range l {
+				var j int
+				fmt.Sscanf(d.Mailbox, "m%d", &j)
+				got = append(got, j)
+			}
+			return err
+		}
 	case "fetch":
 		c := s.client.Fetch(imap.SeqSetNum(1), &imap.FetchOptions{Flags: true})
 		wait = func() error { _, err := c.Collect(); return err }
 	case "expunge":
 		c := s.client.Expunge()
-		wait = func() error { _, err := c.Collect(); return err }
+		wait = func() error {
+			l, err := c.Collect()
+			for _, n := range l {
+				got = append(got, int(n))
+			}
+			return err
+		}
 	case "search":
 		c := s.client.Search(&imap.SearchCriteria{}, nil)
-		wait = func() error { _, err := c.Wait(); return err }
+		wait = func() error {
+			d, err := c.Wait()
+			if d != nil && d.All != nil {
+				if ss, ok := d.All.(imap.SeqSet); ok {
+					if nums, ok := ss.Nums(); ok {
+						for _, n := range nums {
+							got = append(got, int(n))
+						}
+					}
+				}
+			}
+			return err
+		}
 	case "logout":
 		c := s.client.Logout()
 		wait = c.Wait
@@ -125,6 +155,7 @@ func (s *c12Session) submit(kind string, name int) *c12Handle {
 		hd.mu.Lock()
 		hd.done = true
 		hd.status = statusOf(err)
+		hd.data = got
 		hd.count++
 		hd.mu.Unlock()
 	}()
@@ -143,6 +174,10 @@ func kindCoq(kind string, name int) string {
 		return "KLogout"
 	case "expunge":
 		return "KExpunge"
+	case "list":
+		return "KList"
+	case "search":
+		return "KSearch"
 	}
 	return "KPlain"
 }
@@ -193,7 +228,8 @@ func (s *c12Session) observe() (string, map[string]interface{}) {
 func runC12(h *H) {
 	imports := []string{"From GoImap.Base Require Import Bytes.", "From GoImap.Model Require Import ClientConn ClientConnCorr."}
 	corr := h.NewCorr("events", imports, "cc_mismatches", 150).Type("cc_case")
-	h.Rule("real imapclient.Client against a scripted server: batches of 1..4 pipelined commands (NOOP, STATUS, LIST, FETCH, SEARCH, EXPUNGE) answered in every/random order with OK/NO/BAD, state-changing commands (LOGIN, SELECT of two mailboxes with their data block, UNSELECT, LOGOUT) on their own, unilateral EXISTS / EXPUNGE / FLAGS / PERMANENTFLAGS / FETCH / [CLOSED] / BYE-less noise interleaved anywhere, and finally the connection cut with commands still pending. After every step (closed by a NOOP round trip) State(), Mailbox() and the outcome of every Wait are compared with the model inside Coq and with a Go reference interpretation of the transcript (oracle: each command completes exactly once with the status of its own tagged response; a NO/BAD changes nothing else; the mailbox summary equals what the transcript implies). Non-trivial = a step delivered responses out of submission order or changed the mailbox summary; distinct by script.")
+	corrData := h.NewCorr("data", imports, "cd_mismatches", 150).Type("cd_case")
+	h.Rule("real imapclient.Client against a scripted server: batches of 1..4 pipelined commands (NOOP, STATUS, LIST, FETCH, SEARCH, EXPUNGE) answered in every/random order with OK/NO/BAD (commands whose data would be ambiguous — two LISTs, two SEARCHes, two EXPUNGEs — in submission order), each LIST/SEARCH answer preceded by 0..3 data lines with globally unique items, state-changing commands (LOGIN, SELECT of two mailboxes with their data block, UNSELECT, LOGOUT) on their own, unilateral EXISTS / EXPUNGE / FLAGS / PERMANENTFLAGS / FETCH / [CLOSED] / BYE-less noise interleaved anywhere, and finally the connection cut with commands still pending. After every step (closed by a NOOP round trip) State(), Mailbox() and the outcome of every Wait are compared with the model inside Coq and with a Go reference interpretation of the transcript (oracle: each command completes exactly once with the status of its own tagged response; a NO/BAD changes nothing else; the mailbox summary equals what the transcript implies; every LIST/SEARCH command's Collect/Wait returns exactly the data sent in answer to it; the data collected by LIST/SEARCH/EXPUNGE commands is also re-derived by the model's routing function). Non-trivial = a step delivered responses out of submission order or changed the mailbox summary; distinct by script.")
 
 	runScript := func(seed int64, src string) {
 		rng := newRand(seed)
@@ -214,8 +250,10 @@ func runC12(h *H) {
 			flags, perm []int
 		}
 		nontrivial := false
-		var evs []string
-		ev := func(e string) { evs = append(evs, e) }
+		nontrivialData := false
+		datum := 100 // data items are globally unique and increasing
+		var evs, allEvs []string
+		ev := func(e string) { evs = append(evs, e); allEvs = append(allEvs, e) }
 		ev("EvGreeting 0")
 		var transcript []string
 		send := func(line string) {
@@ -348,10 +386,30 @@ func runC12(h *H) {
 			word := []string{"OK", "NO", "BAD"}[status]
 			if hd.kind == "login" && status == 0 {
 				send(fmt.Sprintf("T%d OK [CAPABILITY IMAP4rev1] logged in", hd.tag))
-			} else if hd.kind == "search" && status == 0 {
-				send("* SEARCH 1 2")
-				ev("EvOther")
-				send(fmt.Sprintf("T%d OK done", hd.tag))
+			} else if hd.kind == "search" {
+				// data first (also before a NO: the server may have produced part of the result)
+				for k := rng.Intn(3); k > 0; k-- {
+					var nums, ns []string
+					for j := rng.Intn(3); j >= 0; j-- {
+						datum++
+						nums = append(nums, fmt.Sprint(datum))
+						ns = append(ns, fmt.Sprint(datum))
+						hd.sent = append(hd.sent, datum)
+					}
+					send("* SEARCH " + strings.Join(nums, " "))
+					ev("EvSearchData " + coqList(ns))
+					nontrivialData = true
+				}
+				send(fmt.Sprintf("T%d %s done", hd.tag, word))
+			} else if hd.kind == "list" {
+				for k := rng.Intn(4); k > 0; k-- {
+					datum++
+					send(fmt.Sprintf(`* LIST () "/" m%d`, datum))
+					ev(fmt.Sprintf("EvListData %d", datum))
+					hd.sent = append(hd.sent, datum)
+					nontrivialData = true
+				}
+				send(fmt.Sprintf("T%d %s done", hd.tag, word))
 			} else if hd.kind == "logout" && status == 0 {
 				send("* BYE bye")
 				ev("EvOther")
@@ -387,6 +445,24 @@ func runC12(h *H) {
 				perm := rng.Perm(k)
 				if k > 1 && fmt.Sprint(perm) != fmt.Sprint(rng.Perm(1)) {
 					nontrivial = true
+				}
+				// commands whose untagged data would be ambiguous (two LISTs, two SEARCHes, two
+				// EXPUNGEs) are answered in submission order (RFC 9051 5.5); everything else in any order
+				for _, kind := range []string{"list", "search", "expunge"} {
+					var pos []int
+					for i, pi := range perm {
+						if batch[pi].kind == kind {
+							pos = append(pos, i)
+						}
+					}
+					var idx []int
+					for _, i := range pos {
+						idx = append(idx, perm[i])
+					}
+					sort.Ints(idx)
+					for j, i := range pos {
+						perm[i] = idx[j]
+					}
 				}
 				for _, pi := range perm {
 					if rng.Intn(2) == 0 {
@@ -501,8 +577,22 @@ func runC12(h *H) {
 		if !withTimeout(3*time.Second, func() { client.Close() }) {
 			h.Fail("close-hangs", "Client.Close did not return", desc)
 		}
+		// data delivery: every LIST / SEARCH command got exactly the data sent in answer to it
+		var dataObs []string
+		for _, hd := range s.handles {
+			hd.mu.Lock()
+			if hd.done && (hd.kind == "list" || hd.kind == "search" || hd.kind == "expunge") {
+				dataObs = append(dataObs, fmt.Sprintf("(%d, %s)", hd.tag, coqNs(hd.data)))
+				if hd.kind != "expunge" && fmt.Sprint(hd.data) != fmt.Sprint(hd.sent) {
+					desc["transcript"] = transcript
+					h.Fail("data-misrouted:"+hd.kind, fmt.Sprintf("command T%d (%s) was answered with data %v but its Collect/Wait returned %v", hd.tag, hd.kind, hd.sent, hd.data), desc)
+				}
+			}
+			hd.mu.Unlock()
+		}
+		corrData.Add("("+coqList(allEvs)+", "+coqList(dataObs)+")", desc)
 		key := ""
-		if nontrivial {
+		if nontrivial || nontrivialData {
 			key = fmt.Sprint(seed)
 		}
 		h.Eval(key)
